@@ -1,5 +1,6 @@
 import SedpackDriver.Util
 import SedpackModel.Tree
+import SedpackModel.TreeCrash
 open Lean
 namespace Sedpack.Drv
 open Sedpack.Tree
@@ -98,5 +99,34 @@ def checkJ (j : Json) : Except String Json := do
         (if how == "remove" then none else if how == "swap" then files0 d other else some 0) else files0 d f)
     else files0
   return Json.mkObj [("ok", Json.bool (check Hdrv id fuel fs' files' infos))]
+
+end Sedpack.Drv
+
+namespace Sedpack.Drv
+open Sedpack.Tree
+
+/-- `{"m":"installs","fuel":f,"sessions":[…completed sessions…],"fillers":[session,…]}` → the list documents the writing call
+made of `fillers` (one filler: a plain session; several: a multi-writer call) installs after the completed `sessions`, in program
+order (`multiSessionE`), each as `[dir, [file ids], [child dirs]]`; `refines` says whether the installs reproduce `session`'s
+store on every touched directory; every prefix is a crash state, `crash_enum[k]` is what a reader enumerates per split after `k`
+installs. -/
+def installsJ (j : Json) : Except String Json := do
+  let fuel ← getNat j "fuel"
+  let ssJ ← getArr j "sessions"
+  let pre ← ssJ.toList.mapM parseSession
+  let flJ ← getArr j "fillers"
+  let fillers ← flJ.toList.mapM parseSession
+  let ds := runSessions Hdrv fuel pre
+  let r := multiSessionE Hdrv fuel ds fillers
+  let touched := touchedDirs (pre ++ fillers)
+  let post := session Hdrv fuel ds fillers.flatten
+  let viaInstalls := applyInstalls ds.fs r.2
+  let same := touched.all (fun d => decide (viaInstalls d = post.fs d) && decide (r.1.fs d = post.fs d))
+  let insJ := r.2.map (fun i => Json.arr #[toJson i.1, natList (i.2.files.map (·.file)), Json.arr (i.2.kids.map (fun c => toJson c.dir)).toArray])
+  let enumAt (k : Nat) : Json :=
+    let c := applyInstalls ds.fs (r.2.take k)
+    Json.arr #[natList ((shardsOf fuel c [0]).map (·.file)), natList ((shardsOf fuel c [1]).map (·.file)), natList ((shardsOf fuel c [2]).map (·.file))]
+  return Json.mkObj [("installs", Json.arr insJ.toArray), ("refines", Json.bool same),
+    ("crash_enum", Json.arr ((List.range (r.2.length + 1)).map enumAt).toArray)]
 
 end Sedpack.Drv
